@@ -574,7 +574,10 @@ class Interp:
         if name in ('math.radians',):
             return FloatV(z3.fpMul(RNE, to_float(args[0]).t, z3.FPVal(math.pi / 180.0, F64)))
         if name in ('np.sqrt', 'math.sqrt', 'numpy.sqrt'):
-            x = to_float(args[0]).t
+            fx = to_float(args[0])
+            x = fx.t
+            if fx.bounded and fx.lo >= 0:
+                return FloatV(z3.fpSqrt(RNE, x), *_out(math.sqrt(fx.lo), math.sqrt(fx.hi)))
             if name == 'math.sqrt' and self.branch(BoolV(z3.fpLT(x, z3.FPVal(0.0, F64)))):
                 raise _Raise('ValueError')
             return FloatV(z3.fpSqrt(RNE, x))
